@@ -22,11 +22,24 @@ THEOREMS = [
     "Inventory.update_total", "Inventory.update_spec", "Inventory.update_unusable_reported",
     "Inventory.getLink_after_update", "Inventory.runSteps_state_ignores_asks", "Inventory.update_latest_wins",
     "Inventory.failed_update_keeps_links",
+    # round 3: names discharged from the tree shape, written lines, cache, linker order, kind -> role table
+    "Inventory.roundtrip_wellNamed", "Inventory.visList_nodup", "Inventory.visList_full_ok", "Inventory.written_lines",
+    "Inventory.parseMaxAge_raises_only_invalid", "Inventory.parseMaxAge_ok_iff", "Inventory.prepareCache_raises_iff",
+    "Inventory.prepareCache_total_partial", "Inventory.prepareCache_counterexample", "Inventory.fetch_total",
+    "Inventory.failed_download_reported", "Inventory.getLink_spec", "Inventory.getLink_truthy",
+    "Inventory.xref_internal_first", "Inventory.xref_external_order", "Inventory.xref_external_is_getLink",
+    "Inventory.linkTo_order", "Inventory.xref_roundtrip", "Inventory.role_table", "Inventory.role_is_sphinx_type",
+    "Inventory.role_never_obj", "Inventory.DocKind.all_complete",
     # historical, about the parser before /repo commit f721ca9 (parsePartsOld)
     "Inventory.old_indexError_iff", "Inventory.old_parse_total_counterexample", "Inventory.old_agrees",
     "Inventory.old_good_lines_survive_counterexample",
 ]
-PARTIAL: dict = {}
+PARTIAL: dict = {
+    "Inventory.prepareCache_total_partial": "excludes --clear-intersphinx-cache with a cache directory that shutil.rmtree cannot remove "
+                                            "(e.g. it does not exist: FileNotFoundError reaches main, prepareCache_counterexample) and an "
+                                            "unparsable --intersphinx-cache-max-age when the cache is enabled (InvalidMaxAge); both happen "
+                                            "before any inventory is loaded and are outside the wording of C17 (recorded as an observation)",
+}
 RULE = ("(a) exhaustive: every line of <=6 space-separated tokens over {a, 1, -1, py:x, std:y, -, ''} through the real "
         "_parseInventoryLine and _parseInventory and through the Lean model, plus random lines over a wider token alphabet "
         "(signs, underscores, whitespace, 4300/4301-digit numbers, non-ASCII, every str.splitlines separator); non-trivial = the "
@@ -43,7 +56,18 @@ RULE = ("(a) exhaustive: every line of <=6 space-separated tokens over {a, 1, -1
         "the mutations, in malformed and in well-formed lines. (d) one reader over time: random sequences of update(url, bytes) "
         "(valid, mixed with malformed lines, truncated, corrupt, missing, a second version of the same inventory) interleaved "
         "with getLink(name), against the model run as a state machine and against what the served files say; non-trivial = "
-        "a name is looked up before a later load (re)defines it.")
+        "a name is looked up before a later load (re)defines it. (0) corpus, run first and seed-independent: the input of every "
+        "recorded finding and the needed shape of every seeded change (priority-last line, header-truncated downloads, "
+        "percent lines, a compressed body holding newline+'#', the stale-lookup sequence, a non-ASCII project). (e) cache: "
+        "parseMaxAge on every string of <=4 characters over a 13-character alphabet + boundary values; prepareCache over "
+        "clear x enable x directory present/missing x 5 max-age strings; IntersphinxCache.get + "
+        "System.fetchIntersphinxInventories with a fake session that returns bodies, raises 8 kinds of Exception or a "
+        "BaseException; non-trivial = accepted max-age / a download fails. (f) linker: the real _EpydocLinker."
+        "_resolve_identifier_xref and link_to on a real System for 21 identifiers x 6 contexts x random inventories "
+        "(name resolution results observed on the real objects and handed to the model as parameters); getLink for "
+        "every location of <=4 characters over {a,$,/,#}; the written domain:type of an object of each of the 18 "
+        "DocumentableKinds against the model's table; non-trivial = the inventory holds the expanded or written name "
+        "of an identifier that is no object of the system.")
 ASSUMPTIONS = [
     "int(token) is transcribed for tokens without non-ASCII decimal digits / non-ASCII whitespace (CPython accepts those too); "
     "such tokens are not generated for the model comparison. CPython's int_max_str_digits is the default 4300.",
@@ -51,6 +75,10 @@ ASSUMPTIONS = [
     "is handed to the model, and the bytes the real code hands to zlib are compared with the model's stripped payload.",
     "the writer model covers subjects = system.rootobjects (the driver's default); --html-subject is outside the model.",
     "Lean `Char` excludes surrogates: names containing lone surrogates are outside the model.",
+    "linker: objForFullName, expandName, resolveName and the context search after the intersphinx test (walk up the parents, uncle "
+    "search, all-modules search) are parameters of resolveXref/linkTo, observed on the real objects (name resolution is C04's layer).",
+    "cache: the HTTP session, CacheControl/FileCache and shutil.rmtree are parameters (body / Exception / BaseException; removed or not); "
+    "the DocumentableKind -> model class mapping (DocKind.cls) is tied to the builder only by the kinds stream.",
     "the model tree is abstracted from the real System (name, isinstance class, own privacyClass is HIDDEN, contents order); "
     "fullName, url, visibility propagation and traversal are recomputed by the model.",
 ]
